@@ -22,7 +22,9 @@ RULE = ('one history per case on ONE live object of the family named by the gene
         '(first reads interleaved with normalize/unnormalize), PSFPhotometry/IterativePSFPhotometry (repeated calls '
         'with different data/init_params columns, each followed by a sequence of make_model_image/make_residual_image '
         'requests with varying shape/psf_shape/include_localbkg judged one by one), star finders (repeated calls), Ellipse (fit_image sequences), '
-        'GriddedPSFModel (evaluation order/copy/deepcopy). Every returned value is compared exactly with the same '
+        'GriddedPSFModel (evaluation order/copy/deepcopy; grids nx, ny in 1..7 incl. strongly non-square and single row/column, cell sweeps). '
+        'Independently of the class the generic axes magnitude / call form / memory layout / image shape / degenerate input are drawn '
+        '(pv/gen/c09_axes.py, counted as axis:* notes), identically for the live object and its fresh twins. Every returned value is compared exactly with the same '
         'single request on a freshly constructed object. non-trivial = the history contains >= 2 requests of which '
         'at least one follows a state-changing step (a first read of a lazy attribute, an assignment, a mutator or '
         'a call); distinct by digest of (constructor inputs, request sequence)')
